@@ -2,6 +2,7 @@
 import XsdataModel.Lex.Dates
 import XsdataModel.Lex.Period
 import XsdataModel.Proofs.Timeline
+import XsdataModel.Spec.XsdDate
 
 namespace Props.C06
 open Py Xs.Dates Proofs.Timeline
@@ -224,5 +225,69 @@ theorem datetime_key_inj (a b : XmlDateTime)
 example : realDate 2024 2 29 ∧ (nextDay 2024 2 29 = (2024, 3, 1)) := by
   refine ⟨⟨by decide, by decide, by decide, 29, by decide, by decide⟩, by decide⟩
 example : todOK 23 59 59 999999999 := by unfold todOK; omega
+
+/-! ## the hypotheses of the theorems above are satisfiable (concrete non-trivial instances) -/
+
+-- after validateDate_real
+example : validateDate 2024 2 29 = true ∧ validateDate 1900 2 29 = false := by decide
+-- after validateTime_real
+example : validateTime 24 0 0 0 = true ∧ validateTime 24 0 0 1 = false := by decide
+-- after reject_unreal_date
+example : XmlDate.fromString Env.ascii "-0004-02-29+14:00".toList = some ⟨-4, 2, 29, some 840⟩ := by decide
+-- after reject_unreal_time
+example : XmlTime.fromString Env.ascii "24:00:00.000Z".toList = some ⟨24, 0, 0, 0, some 0⟩ := by decide
+-- after reject_unreal_datetime
+example : XmlDateTime.fromString Env.ascii "12345-12-31T23:59:59.5-05:30".toList
+    = some ⟨12345, 12, 31, 23, 59, 59, 500000000, some (-330)⟩ := by decide
+-- after reject_unreal_period
+example : parsePeriod Env.ascii "--02-29Z".toList = some ⟨none, some 2, some 29, some 0⟩ := by decide
+
+-- after datetime_key_lt_iff : all five hypotheses at once, different offset spellings
+example : let a : XmlDateTime := ⟨2024, 2, 29, 23, 59, 59, 999999999, none⟩
+    let b : XmlDateTime := ⟨2024, 3, 1, 0, 0, 0, 0, some 0⟩
+    realDate a.year a.month a.day ∧ realDate b.year b.month b.day ∧
+    todOK a.hour a.minute a.second a.frac ∧ todOK b.hour b.minute b.second b.frac ∧
+    a.offset.getD 0 = b.offset.getD 0 ∧ a.timeline < b.timeline := by
+  refine ⟨⟨by decide, by decide, by decide, 29, by decide, by decide⟩,
+    ⟨by decide, by decide, by decide, 31, by decide, by decide⟩, ?_, ?_, by decide, by decide⟩
+  · unfold todOK; decide
+  · unfold todOK; decide
+
+-- after time_key_lt_iff
+example : let a : XmlTime := ⟨0, 0, 0, 1, some 60⟩
+    let b : XmlTime := ⟨0, 0, 1, 0, some 60⟩
+    todOK a.hour a.minute a.second a.frac ∧ todOK b.hour b.minute b.second b.frac ∧
+    a.offset.getD 0 = b.offset.getD 0 ∧ a.timeline < b.timeline := by
+  refine ⟨?_, ?_, by decide, by decide⟩ <;> (unfold todOK; decide)
+
+
+/-! ## `realDate` is the calendar of the independent specification, not only the model's own table -/
+
+/-- `realDate` restated with the XSD specification's own day-in-month table (Spec/XsdDate.lean) -/
+theorem realDate_iff_spec (y m d : Int) :
+    realDate y m d ↔ 1 ≤ m ∧ m ≤ 12 ∧ 1 ≤ d ∧ d ≤ (Xs.Spec.daysInMonth y m.toNat : Int) := by
+  unfold realDate
+  have key : ∀ (h1 : 1 ≤ m) (h2 : m ≤ 12), monthlen y m.toNat = some (Xs.Spec.daysInMonth y m.toNat) := by
+    intro h1 h2
+    rw [monthlen_cases y m h1 h2]
+    unfold Xs.Spec.daysInMonth isLeap
+    have hm : (m.toNat : Int) = m := by omega
+    by_cases a : m = 2
+    · simp [a]
+      by_cases l4 : y % 4 = 0 <;> by_cases l100 : y % 100 = 0 <;> by_cases l400 : y % 400 = 0 <;> simp [l4, l100, l400] <;> omega
+    · have : m.toNat ≠ 2 := by omega
+      simp only [a, this, if_false]
+      by_cases b : m = 4 ∨ m = 6 ∨ m = 9 ∨ m = 11
+      · have : m.toNat = 4 ∨ m.toNat = 6 ∨ m.toNat = 9 ∨ m.toNat = 11 := by omega
+        simp [b, this]
+      · have : ¬ (m.toNat = 4 ∨ m.toNat = 6 ∨ m.toNat = 9 ∨ m.toNat = 11) := by omega
+        simp [b, this]
+  constructor
+  · rintro ⟨h1, h2, h3, md, hm, hd⟩
+    rw [key h1 h2] at hm
+    cases hm
+    exact ⟨h1, h2, h3, hd⟩
+  · rintro ⟨h1, h2, h3, hd⟩
+    exact ⟨h1, h2, h3, _, key h1 h2, hd⟩
 
 end Props.C06
